@@ -240,6 +240,24 @@ def run(R):
         else:
             R.check(len(cc) == 1 and q.src(cc[0].args[1]) == "should_include", "C14.FILTER", f.qualname + ":select", R.site(f),
                     "afilter keeps the elements whose predicate is true", "afilter does not select by the predicate results")
+        # the shortcut that ignores the predicate (filter(None, ...) / filterfalse(None, ...)) is taken only when there is none
+        fcfg = cfg_of(f)
+        short = [n for n, c in kit.call_sites(f, lambda c: q.call_name(c) in ("filter", "filterfalse", "itertools.filterfalse") and c.args and q.is_none(c.args[0]))]
+        if short:
+            def no_pred(nd):
+                if nd.kind != "test":
+                    return None
+                k, s, pos = q.atom_test(nd.ast)
+                if k == "isnone" and s == "function":
+                    return "T" if pos else "F"
+                return None
+            p = kit.path_avoiding_guard(fcfg, short, no_pred, N)
+            R.check(p is None, "C14.FILTER", f.qualname + ":shortcut", R.site(f), "%s ignores the predicate only when it is None" % h,
+                    "%s can take the truthiness shortcut although a predicate was given: the async predicate is never applied" % h, fcfg.fmt_path(p) if p else None)
+        live = fcfg.reachable([fcfg.entry], N)
+        sel_nodes = [n for n in fcfg.nodes if any(c is x for c in cc for x in kit.node_calls(n))]
+        R.check(any(n.id in live for n in sel_nodes), "C14.FILTER", f.qualname + ":live", R.site(f), "the predicate path of %s is reachable" % h,
+                "the path of %s that applies the predicate is unreachable" % h)
     f = repo.fn("tools.asift")
     zc = [c for c in q.calls(f.node) if q.call_name(c) == "zip"]
     okz = len(zc) == 1 and [q.src(a) for a in zc[0].args] == ["items", "results"]
@@ -272,7 +290,17 @@ def run(R):
         R.check(okr, "C14.RETRY", w.qualname + ":last", R.site(w, h), "the last attempt's exception is re-raised (bare raise when i + 1 == max_tries)",
                 "the handler does not re-raise exactly on the last attempt")
     ys = [x for n in tr.body for x in ast.walk(n) if isinstance(x, ast.Yield)]
-    oky = len(ys) == 1 and q.src(ys[0].value) == "fn.asynq(*args, **kwargs)" and any(isinstance(n, ast.Return) for n in tr.body)
+    def returns_yield(stmts):
+        # `return (yield ...)`  or  `x = yield ...; return x`
+        for n in stmts:
+            if isinstance(n, ast.Return) and n.value is not None:
+                if isinstance(n.value, ast.Yield):
+                    return True
+                if isinstance(n.value, ast.Name):
+                    vals = [a.value for a in stmts if isinstance(a, ast.Assign) and any(q.src(t) == n.value.id for t in a.targets)]
+                    return len(vals) == 1 and isinstance(vals[0], ast.Yield)
+        return False
+    oky = len(ys) == 1 and q.src(ys[0].value) == "fn.asynq(*args, **kwargs)" and returns_yield(tr.body)
     R.check(oky, "C14.RETRY", w.qualname + ":body", R.site(w, tr), "each attempt yields fn.asynq(*args, **kwargs) and returns its result",
             "an attempt does not yield fn.asynq(*args, **kwargs) and return its result")
     asserts = [n for n in top.node.body if isinstance(n, ast.Assert)]
